@@ -2845,6 +2845,8 @@ class sptensor:
         # a dense result, even if the scalar is zero.
 
         # Case 1: Second argument is a scalar or a dense tensor
+        if isinstance(other, ttb.tensor) and self.shape != other.shape:
+            assert False, "Must be two tensors of the same shape"
         if isinstance(other, (float, int, ttb.tensor)):
             return self.full() - other
 
